@@ -245,6 +245,7 @@ def _cmp(run, obj, exp, what, opname, ev_i):
 
 def execute(plan):
     setup()
+    base.check_poison_consistent(plan)
     pt = Env.pt
     run = _Run(plan)
     out = run.out
